@@ -56,6 +56,16 @@ func ruleStreamConfigPlumbing(c *eng.Ctx, only ...string) {
 	for _, o := range only {
 		want[o] = true
 	}
+	// any field-by-field copy of a configuration value on the way carries these settings
+	var names []string
+	for _, s := range streamSettings {
+		if len(want) == 0 || want[s.proto] {
+			names = append(names, s.proto, s.cfg, s.logOpt)
+		}
+	}
+	rule, kind := c.CurrentRule()
+	ruleCompleteCopies(c, rule, configTypes, names, "wherever the copy is used (resume after a pause, snapshot and restore, new partitions) the stream silently falls back to the default for that setting")
+	c.Rule(rule, kind)
 	gs := c.Fn("server.getStreamConfig")
 	ao := c.Fn("server.(*StreamsConfig).ApplyOverrides")
 	np := c.Fn("server.(*Server).newPartition")
